@@ -324,6 +324,15 @@ func runCheck(prop, tier string, curate bool) int {
 				} else {
 					total.Extra[k] = x
 				}
+			case map[string]any:
+				old, ok := total.Extra[k].(map[string]any)
+				if !ok {
+					old = map[string]any{}
+					total.Extra[k] = old
+				}
+				for kk, vv := range x {
+					old[kk] = vv
+				}
 			default:
 				total.Extra[k] = v
 			}
